@@ -58,6 +58,8 @@ def labels(case, R, stats):
         stats.label("no_redundancy")
     if case.get("offset"):
         stats.label("large_abs_terms")
+    if case.get("pow2"):
+        stats.label("scaled_units", "scaled_2^%d" % case["pow2"])
 
 
 def check_solution(tag, case, A, C, R, ans, stats, homogenised=False):
@@ -83,7 +85,12 @@ def check_solution(tag, case, A, C, R, ans, stats, homogenised=False):
     nA = max(1.0, np.linalg.norm(A, 2))
     kappa = R.cond / max(R.sg_ratio, 1e-3)
     if ans["defect"]["v"] != R.d:
-        fails.append("%s.defect: gama %s, reference %d" % (tag, ans["defect"]["v"], R.d))
+        if tag.endswith(".gso") and case.get("pow2", 0) >= 14 and ans["defect"]["v"] < R.d:
+            # known finding: ICGS compares the norm of an orthogonalised column with the absolute number 1e5*eps
+            fails.append("gso_abs_tolerance_upscaled: gso reports defect %s, reference %d, design matrix in units of 2^%d"
+                         % (ans["defect"]["v"], R.d, case["pow2"]))
+        else:
+            fails.append("%s.defect: gama %s, reference %d" % (tag, ans["defect"]["v"], R.d))
         return fails
     # residual identity on the original system
     tol = 1e-9 * (nA * np.linalg.norm(x) + np.linalg.norm(b) + 1.0)
@@ -229,9 +236,9 @@ def oracle_network(c, stats):
 
 
 PARTS = [
-    Part("linear", strategy=lambda: gen_linear.linear_problem(), oracle=oracle_linear,
+    Part("linear", strategy=lambda: gen_linear.linear_problem(big_scale=True), oracle=oracle_linear,
          nontrivial=nontrivial, n={"quick": 4000, "thorough": 40000}),
-    Part("large", strategy=lambda: gen_linear.graph_problem(), oracle=oracle_linear,
+    Part("large", strategy=lambda: gen_linear.graph_problem(big_scale=True), oracle=oracle_linear,
          nontrivial=nontrivial, n={"quick": 600, "thorough": 8000},
          sample=lambda c: {"m": c["m"], "n": c["n"], "d": c["d"], "mode": c["mode"], "minx": c["minx"],
                            "bands": [b["width"] for b in c["blocks"]]}),
